@@ -16,6 +16,7 @@ package main
 
 import (
 	"fmt"
+	"go/types"
 	"sort"
 
 	"golang.org/x/tools/go/ssa"
@@ -89,6 +90,23 @@ func (w *World) ruleRecursionReadsStream(r *Report, rule string, min int) {
 		if !onCycle(f) {
 			continue
 		}
+		// decoded data travels as interface{} / reflect.Value (or containers of
+		// them); a recursion none of whose inputs has such a type — an error
+		// chain's Error(), a walk over reflect.Type — does not descend decoded data
+		carries := false
+		for _, p := range f.Params {
+			if carriesDecoded(p.Type(), 0) {
+				carries = true
+			}
+		}
+		for _, fv := range f.FreeVars {
+			if carriesDecoded(fv.Type(), 0) {
+				carries = true
+			}
+		}
+		if !carries && !closure[f] {
+			continue
+		}
 		n++
 		ok := closure[f]
 		r.add(rule, fmt.Sprintf("%s · recursive on the decode path", fnName(f)), w.pos(f.Pos()), ok, map[bool]string{
@@ -96,4 +114,26 @@ func (w *World) ruleRecursionReadsStream(r *Report, rule string, min int) {
 			false: "no read of the input stream is reachable from this recursive function: it recurses over decoded data, which can contain itself through a back-reference — unbounded recursion, fatal stack overflow"}[ok])
 	}
 	r.floor(rule+" (recursive functions on the decode path)", n, min)
+}
+
+func carriesDecoded(t types.Type, depth int) bool {
+	if depth > 3 {
+		return false
+	}
+	if typeStr(t) == "reflect.Value" {
+		return true
+	}
+	switch u := t.Underlying().(type) {
+	case *types.Interface:
+		return u.NumMethods() == 0
+	case *types.Slice:
+		return carriesDecoded(u.Elem(), depth+1)
+	case *types.Array:
+		return carriesDecoded(u.Elem(), depth+1)
+	case *types.Map:
+		return carriesDecoded(u.Key(), depth+1) || carriesDecoded(u.Elem(), depth+1)
+	case *types.Pointer:
+		return carriesDecoded(u.Elem(), depth+1)
+	}
+	return false
 }
